@@ -92,7 +92,7 @@ def cells(tier, seed):
             if tier == "quick" and fam not in ("exact", "sumprod") and len(pb) + len(xb) > 2:
                 continue
             out.append({"what": "exactgp", "name": fam, "pb": list(pb), "xb": list(xb)})
-    for strat, dist in (("vs", "chol"), ("vs", "mf"), ("uvs", "chol"), ("vs", "nat")):
+    for strat, dist in (("vs", "chol"), ("vs", "mf"), ("uvs", "chol"), ("vs", "nat"), ("vs", "chol+prior")):
         for pb, xb in pairs:
             if len(pb) == 0:
                 continue
@@ -302,11 +302,14 @@ class BSVGP(gpytorch.models.ApproximateGP):
     def __init__(self, strat, dist, bs, Z):
         bs = torch.Size(bs)
         M = Z.shape[-2]
+        with_prior = dist.endswith("+prior")
+        dist = dist.replace("+prior", "")
         vd = {"chol": V.CholeskyVariationalDistribution, "mf": V.MeanFieldVariationalDistribution, "nat": V.NaturalVariationalDistribution}[dist](M, batch_shape=bs)
         cls = V.UnwhitenedVariationalStrategy if strat == "uvs" else V.VariationalStrategy
         super().__init__(cls(self, Z, vd, learn_inducing_locations=True))
         self.mean_module = gpytorch.means.ConstantMean(batch_shape=bs)
-        self.covar_module = K.ScaleKernel(K.RBFKernel(batch_shape=bs), batch_shape=bs)
+        lp = gpytorch.priors.GammaPrior(2.0, 3.0) if with_prior else None   # a hyper-prior: each batch element carries ITS OWN prior term
+        self.covar_module = K.ScaleKernel(K.RBFKernel(batch_shape=bs, lengthscale_prior=lp), batch_shape=bs)
         self.likelihood = gpytorch.likelihoods.GaussianLikelihood(batch_shape=bs)
 
     def forward(self, x):
